@@ -53,8 +53,8 @@ def showB (b : Bool) : String := if b then "T" else "F"
 
 def showVerdict : ExpandVerdict → String
   | .noShapes => "noshapes"
-  | .ok1 => "ok1" | .fail1 i => s!"fail1:{i}"
-  | .ok2 => "ok2" | .fail2 i => s!"fail2:{i}"
+  | .ok1 => "ok1" | .fail1 i => s!"fail1:{i}" | .rank1 => "rank1"
+  | .ok2 => "ok2" | .fail2 i => s!"fail2:{i}" | .rank2 => "rank2"
   | .ok3 => "ok3" | .fail3 => "fail3"
   | .noInfo => "noinfo"
 
@@ -96,7 +96,8 @@ def handle (args : List String) : String :=
      | some a, some b => showOShape (bcastShape a b) | _, _ => bad)
   | ["dimsSuff", e, x, y] =>
     (match parseShape e, parseShape x, parseShape y with
-     | some e, some x, some y => (match dimsSufficient e x y with | none => "ok" | some i => s!"fail:{i}")
+     | some e, some x, some y =>
+       (match dimsSufficient e x y with | .ok => "ok" | .rankFail => "fail:rank" | .dimFail i => s!"fail:{i}")
      | _, _, _ => bad)
   | ["expandRemovable", x, y, c, eo, bo] =>
     (match parseOShape x, parseOShape y, parseOInts c, parseOShape eo, parseOShape bo with
